@@ -129,7 +129,8 @@ def _history(case, ctx, res):
             # a scalar group (0-d members) is exempt from the shape gate; only scalars are put into it
             return _member(osy, rng, None)
         if ok or not model:
-            return _member(osy, rng, shp[0] if model else (n0 if rng.random() < 0.9 else None))
+            # an empty group accepts any shape: also one that differs from what it held before it was emptied
+            return _member(osy, rng, shp[0] if model else [n0, n0, n0 + 1, max(1, n0 - 1), None][int(rng.integers(0, 5))])
         return _member(osy, rng, shp[0] + int(rng.integers(1, 3)))
 
     nops = int(rng.integers(3, 16))
